@@ -656,6 +656,22 @@ Proof.
   - apply HI_aset; auto. cbn; discriminate.
 Qed.
 
+Lemma new_root_step s h ty sers :
+  Inv s -> alookup h (heap s) = None -> asers_ok sers = true ->
+  Step s (set_heap (fst (fresh_uuid s)) h (mkAction (next_uuid s) [] 0 false [] ty sers None)).
+Proof.
+  intros [A D Gu Gl P H] L S. split; [|cbn; now apply hext_new].
+  destruct (PI_fresh_uuid _ _ _ _ P) as (P1 & C1 & A1 & F1).
+  constructor; cbn; auto.
+  - apply PI_new; cbn; auto.
+    + intros h0 a0 L0 U0 _. eapply F1; eauto.
+    + intros m l I Pm. exfalso. destruct (pi_trace _ _ _ _ P m I) as (u & l0 & Pm' & C).
+      rewrite Pm in Pm'. apply mkplace_inj in Pm' as [<- <-].
+      destruct C as [(h0 & a0 & k0 & L0 & U0 & _)|(_ & C2 & _)]; [|lia].
+      eapply F1; eauto.
+  - apply HI_aset; auto. cbn; discriminate.
+Qed.
+
 Lemma start_action_step c s h task ty fs sers :
   Inv s -> alookup h (heap s) = None -> asers_ok sers = true ->
   Step s (start_action cfg c s h task ty fs sers).
@@ -674,17 +690,7 @@ Proof.
     eapply Step_trans; [exact S1|]. eapply Step_trans; [exact S2|].
     apply start_message_step, S2.
   - cbn [fresh_uuid].
-    match goal with |- Step s (start_message cfg c ?s2 h fs) => assert (S2 : Step s s2) end.
-    { destruct I as [A D Gu Gl P H]. split; [|cbn; now apply hext_new].
-      destruct (PI_fresh_uuid _ _ _ _ P) as (P1 & C1 & A1 & F1).
-      constructor; cbn; auto.
-      - apply PI_new; cbn; auto.
-        + intros h0 a0 L0 U0 _. eapply F1; eauto.
-        + intros m l I Pm. exfalso. destruct (pi_trace _ _ _ _ P m I) as (u & l0 & Pm' & C).
-          rewrite Pm in Pm'. apply mkplace_inj in Pm' as [<- <-].
-          destruct C as [(h0 & a0 & k0 & L0 & U0 & _)|(_ & C2 & _)]; [|lia].
-          eapply F1; eauto.
-      - apply HI_aset; auto. cbn; discriminate. }
+    pose proof (new_root_step s h ty sers I L S) as S2.
     eapply Step_trans; [exact S2|]. apply start_message_step, S2.
 Qed.
 
@@ -1188,7 +1194,7 @@ Proof.
     + destruct (ci_start _ _ _ _ C _ _ L) as (m0 & I0 & P0 & S0). exists m0.
       split; [apply incl_snoc; exact I0 | auto].
     + intros _ _. exists m. split; [apply in_snoc | split; [exact Pm | exact Em]].
-  - left. exists a0. repeat split; auto. discriminate.
+  - left. exists a0. repeat split; auto. intros Q. congruence.
 Qed.
 
 (* token / success-field changes *)
@@ -1221,4 +1227,176 @@ Proof.
     + eapply ci_start; eauto.
     + intros _ Q. congruence.
   - left. exists a0. repeat split; auto. discriminate.
+Qed.
+
+(* a new action object (root or continued task) together with its start message *)
+Lemma CI_start_new hp idz t b h anew m :
+  CI hp idz t b -> alookup h hp = None -> a_last anew = 0 -> a_finished anew = false ->
+  place m = mkplace (a_uuid anew) (a_level anew ++ [1%positive]) ->
+  fget K_status m = Some (VStatus Started) ->
+  CI (aset h (bump anew) (aset h anew hp)) idz (t ++ [m]) b.
+Proof.
+  intros C L N F Pm Sm.
+  assert (E : hext hp (aset h (bump anew) (aset h anew hp))).
+  { intros h0 a0 L0. rewrite !alookup_aset. destruct (Nat.eqb_spec h h0) as [<-|Nh]; [congruence|].
+    exists a0; auto. }
+  eapply CI_transfer; eauto using incl_snoc, ids_same.
+  intros h0 a0. rewrite !alookup_aset. destruct (Nat.eqb_spec h h0) as [<-|Nh]; intros L0.
+  - inversion L0; subst a0. right. split; [|split].
+    + intros k K. cbn in K. rewrite N in K. assert (k = 1) by lia. subst k.
+      left. exists m. split; [apply in_snoc | exact Pm].
+    + exists m. split; [apply in_snoc | auto].
+    + cbn. congruence.
+  - left. exists a0. auto 10.
+Qed.
+
+(* a child action: the parent's next position goes to the child, whose start message is emitted *)
+Lemma CI_start_child hp idz t b p pa h anew m :
+  CI hp idz t b -> alookup p hp = Some pa -> a_finished pa = false -> alookup h hp = None ->
+  a_last anew = 0 -> a_finished anew = false ->
+  a_uuid anew = a_uuid pa -> a_level anew = nextpos pa ->
+  place m = mkplace (a_uuid anew) (a_level anew ++ [1%positive]) ->
+  fget K_status m = Some (VStatus Started) ->
+  CI (aset h (bump anew) (aset h anew (aset p (bump pa) hp))) idz (t ++ [m]) b.
+Proof.
+  intros C Lp Fp L N F Uu Vv Pm Sm.
+  assert (Hne : p <> h) by congruence.
+  assert (E : hext hp (aset h (bump anew) (aset h anew (aset p (bump pa) hp)))).
+  { intros h0 a0 L0. rewrite !alookup_aset. destruct (Nat.eqb_spec h h0) as [<-|Nh]; [congruence|].
+    destruct (Nat.eqb_spec p h0) as [<-|Np].
+    - rewrite Lp in L0; inversion L0; subst a0. exists (bump pa). cbn. repeat split; auto.
+    - exists a0; auto. }
+  eapply CI_transfer; eauto using incl_snoc, ids_same.
+  intros h0 a0. rewrite !alookup_aset. destruct (Nat.eqb_spec h h0) as [<-|Nh]; intros L0.
+  - inversion L0; subst a0. right. split; [|split].
+    + intros k K. cbn in K. rewrite N in K. assert (k = 1) by lia. subst k.
+      left. exists m. split; [apply in_snoc | exact Pm].
+    + exists m. split; [apply in_snoc | auto].
+    + cbn. congruence.
+  - destruct (Nat.eqb_spec p h0) as [<-|Np].
+    + inversion L0; subst a0. right. split; [|split].
+      * intros k K. cbn in K. destruct (Nat.eq_dec k (S (a_last pa))) as [->|Nk].
+        -- right; left. exists h, (bump anew). rewrite !alookup_aset, Nat.eqb_refl.
+           repeat split; auto.
+        -- eapply used_mono; eauto using incl_snoc, ids_same. cbn [bump next_level fst a_uuid a_level].
+           eapply ci_used; eauto. lia.
+      * destruct (ci_start _ _ _ _ C _ _ Lp) as (m0 & I0 & P0 & S0). exists m0.
+        split; [apply incl_snoc; exact I0 | auto].
+      * cbn. congruence.
+    + left. exists a0. auto 10.
+Qed.
+
+(* serialize_task_id: the next position goes to a task id stored in a fresh slot *)
+Lemma CI_ids hp idz t b h a slot :
+  CI hp idz t b -> alookup h hp = Some a -> a_finished a = false -> alookup slot idz = None ->
+  CI (aset h (bump a) hp) (aset slot (a_uuid a, nextpos a) idz) t b.
+Proof.
+  intros C L F Sl.
+  assert (E : hext hp (aset h (bump a) hp)) by (eapply hext_upd; eauto; cbn; lia).
+  assert (I : forall slot0 v, alookup slot0 idz = Some v ->
+                              alookup slot0 (aset slot (a_uuid a, nextpos a) idz) = Some v).
+  { intros slot0 v L0. rewrite alookup_aset. destruct (Nat.eqb_spec slot slot0); [congruence | auto]. }
+  eapply CI_transfer; eauto using incl_refl.
+  intros h0 a0. rewrite alookup_aset. destruct (Nat.eqb_spec h h0) as [<-|N]; intros L0.
+  - inversion L0; subst a0. right. split; [|split].
+    + intros k K. cbn in K. destruct (Nat.eq_dec k (S (a_last a))) as [->|Nk].
+      * right; right. exists slot. now rewrite alookup_aset_same.
+      * eapply used_mono; eauto using incl_refl. cbn [bump next_level fst a_uuid a_level].
+        eapply ci_used; eauto. lia.
+    + destruct (ci_start _ _ _ _ C _ _ L) as (m0 & I0 & P0 & S0). exists m0. auto.
+    + cbn. congruence.
+  - left. exists a0. auto 10.
+Qed.
+
+(* --- finished actions are not referenced ------------------------------------- *)
+Definition unfin (hp : heapT) (v : option nat) : Prop :=
+  match v with
+  | Some h => forall a, alookup h hp = Some a -> a_finished a = false
+  | None => True
+  end.
+
+Record FI (hp : heapT) (cx : list (nat * option nat)) (tk : list (nat * list (option nat))) : Prop := {
+  fi_ctx : forall c v, alookup c cx = Some v -> unfin hp v;
+  fi_tok : forall c t v, alookup c tk = Some t -> In v t -> unfin hp v;
+  fi_atok : forall h a v, alookup h hp = Some a -> a_token a = Some v -> unfin hp v
+}.
+
+Lemma FI_heap hp hp' cx tk :
+  FI hp cx tk ->
+  (forall v, unfin hp v -> unfin hp' v) ->
+  (forall h a' v, alookup h hp' = Some a' -> a_token a' = Some v ->
+     unfin hp' v \/ exists a, alookup h hp = Some a /\ a_token a = Some v) ->
+  FI hp' cx tk.
+Proof.
+  intros [C T A] M N. constructor; eauto.
+  intros h a' v L E. destruct (N _ _ _ L E) as [U|(a & L0 & E0)]; eauto.
+Qed.
+
+(* update keeping the finished flag *)
+Lemma FI_aset_same hp cx tk h a a' :
+  FI hp cx tk -> alookup h hp = Some a -> a_finished a' = a_finished a ->
+  (forall v, a_token a' = Some v -> unfin hp v) -> FI (aset h a' hp) cx tk.
+Proof.
+  intros F L Ff T.
+  assert (M : forall v, unfin hp v -> unfin (aset h a' hp) v).
+  { intros [h0|]; cbn; [|auto]. intros U a0. rewrite alookup_aset.
+    destruct (Nat.eqb_spec h h0) as [<-|N]; intros L0; [|eauto].
+    inversion L0; subst a0. rewrite Ff. eauto. }
+  eapply FI_heap; eauto. intros h0 a0 v. rewrite alookup_aset.
+  destruct (Nat.eqb_spec h h0) as [<-|N]; intros L0 E0.
+  - inversion L0; subst a0. left. eauto.
+  - right. eauto.
+Qed.
+
+(* new or updated entry that is unfinished *)
+Lemma FI_aset_unfin hp cx tk h a' :
+  FI hp cx tk -> a_finished a' = false ->
+  (forall v, a_token a' = Some v -> unfin hp v) -> FI (aset h a' hp) cx tk.
+Proof.
+  intros F Ff T.
+  assert (M : forall v, unfin hp v -> unfin (aset h a' hp) v).
+  { intros [h0|]; cbn; [|auto]. intros U a0. rewrite alookup_aset.
+    destruct (Nat.eqb_spec h h0) as [<-|N]; intros L0; [|eauto].
+    inversion L0; subst a0. exact Ff. }
+  eapply FI_heap; eauto. intros h0 a0 v. rewrite alookup_aset.
+  destruct (Nat.eqb_spec h h0) as [<-|N]; intros L0 E0.
+  - inversion L0; subst a0. left. eauto.
+  - right. eauto.
+Qed.
+
+(* nothing refers to h *)
+Record unref (hp : heapT) (cx : list (nat * option nat)) (tk : list (nat * list (option nat)))
+       (h : nat) : Prop := {
+  ur_ctx : forall c, alookup c cx <> Some (Some h);
+  ur_tok : forall c t, alookup c tk = Some t -> ~ In (Some h) t;
+  ur_atok : forall h0 a0, alookup h0 hp = Some a0 -> a_token a0 <> Some (Some h)
+}.
+
+Lemma FI_finish hp cx tk h a a' :
+  FI hp cx tk -> alookup h hp = Some a -> a_token a' = a_token a -> unref hp cx tk h ->
+  FI (aset h a' hp) cx tk.
+Proof.
+  intros [C T A] L Tk [U1 U2 U3].
+  assert (M : forall v, v <> Some h -> unfin hp v -> unfin (aset h a' hp) v).
+  { intros [h0|]; cbn; [|auto]. intros Ne U a0. rewrite alookup_aset.
+    destruct (Nat.eqb_spec h h0) as [<-|N]; intros L0; [congruence | eauto]. }
+  constructor.
+  - intros c v L0. apply M; eauto. intros ->. eapply U1; eauto.
+  - intros c t v L0 I. apply M; eauto. intros ->. eapply U2; eauto.
+  - intros h0 a0 v. rewrite alookup_aset. destruct (Nat.eqb_spec h h0) as [<-|N]; intros L0 E0.
+    + inversion L0; subst a0. rewrite Tk in E0. apply M; eauto. intros ->. eapply U3; eauto.
+    + apply M; eauto. intros ->. eapply U3; eauto.
+Qed.
+
+Lemma FI_ctx hp cx tk c v : FI hp cx tk -> unfin hp v -> FI hp (aset c v cx) tk.
+Proof.
+  intros [C T A] N. constructor; auto.
+  intros c0 v0. rewrite alookup_aset. destruct (Nat.eqb c c0); intros L; [inversion L; subst; auto | eauto].
+Qed.
+
+Lemma FI_tok hp cx tk c t :
+  FI hp cx tk -> (forall v, In v t -> unfin hp v) -> FI hp cx (aset c t tk).
+Proof.
+  intros [C T A] N. constructor; auto.
+  intros c0 t0 v0. rewrite alookup_aset. destruct (Nat.eqb c c0); intros L; [inversion L; subst; auto | eauto].
 Qed.
